@@ -148,9 +148,9 @@ func cmdCheck(args []string) int {
 	if profile == "" {
 		profile = "any"
 	}
-	timeout := 20
+	timeout := 30
 	if *tier == "thorough" {
-		timeout = 90
+		timeout = 120
 	}
 	outDir := filepath.Join(*verif, "out", "smt", *prop)
 	os.RemoveAll(outDir)
@@ -161,6 +161,7 @@ func cmdCheck(args []string) int {
 	inlined := map[string]bool{}
 	done := map[string]bool{}
 	work := append([]string{}, keys...)
+	var encErrs [][2]string
 	for len(work) > 0 {
 		k := work[0]
 		work = work[1:]
@@ -170,8 +171,12 @@ func cmdCheck(args []string) int {
 		done[k] = true
 		u, err := vc.BuildUnit(P, k, profile, *prop)
 		if err != nil {
+			// the contract no longer binds to the code (function removed or renamed, a
+			// name in a let/writes clause gone): the property is not decided any more;
+			// reported as a failed binding obligation, never silently skipped
 			fmt.Fprintln(os.Stderr, "encoding error:", err)
-			return 2
+			encErrs = append(encErrs, [2]string{k, err.Error()})
+			continue
 		}
 		units = append(units, u)
 		for _, n := range u.Notes {
@@ -229,9 +234,27 @@ func cmdCheck(args []string) int {
 	var failed []*vc.Result
 	var samples []interface{}
 	var slowest *vc.Result
+	coverCount := map[string]int{}
+	var deadReturns []string
 	for _, r := range res {
 		for _, a := range r.Answers {
 			solverSecs += a.Secs
+		}
+		if r.O.Kind == "cover" {
+			ans := "undetermined"
+			if len(r.Answers) > 0 {
+				switch r.Answers[0].Result {
+				case "sat":
+					ans = "reachable"
+				case "unsat":
+					ans = "unreachable"
+				}
+			}
+			coverCount[ans]++
+			if ans == "unreachable" {
+				deadReturns = append(deadReturns, r.O.Name+" ("+r.O.Pos+")")
+			}
+			continue
 		}
 		if r.O.Kind == "vacuity" {
 			nVac++
@@ -267,6 +290,16 @@ func cmdCheck(args []string) int {
 	os.MkdirAll(replayDir, 0o755)
 	widx := loadWitnessIndex(filepath.Join(*verif, "witnesses", "index.json"))
 	wcache := map[string][2]string{}
+	for _, ee := range encErrs {
+		violations++
+		name := ee[0] + "#binding:unit"
+		path := filepath.Join(replayDir, *prop+"-"+sanitize(name)+".json")
+		rp := map[string]interface{}{"property": *prop, "obligation": name, "kind": "binding", "clause": ee[1], "reproduced": false,
+			"note": "the contract of this function cannot be bound to the code any more, so its obligations cannot be generated; the property is undecided for this tree"}
+		b, _ := json.MarshalIndent(rp, "", " ")
+		os.WriteFile(path, b, 0o644)
+		fmt.Printf("VIOLATION property=%s replay=%s obligation=%s no-failing-input-found\n", *prop, path, name)
+	}
 	for _, r := range failed {
 		violations++
 		path := filepath.Join(replayDir, *prop+"-"+sanitize(r.O.Name)+".json")
@@ -364,6 +397,10 @@ func cmdCheck(args []string) int {
 		"discharged_by_solver": solverCount, "solver_seconds_total": round2(solverSecs), "load_seconds": round2(loadS), "vcgen_seconds": round2(genS),
 		"vacuity_checks": nVac, "known_findings_reported": nKnown, "profile": profile, "per_obligation_timeout_s": timeout,
 		"explanation": "every obligation generated from /repo's current source for the functions listed (contract clauses tagged " + *prop + ", supporting loop invariants, call-site preconditions, generated safety conditions) was sent to z3 5.1.0 / z3 4.8.12 / cvc5 1.0; 'discharged' counts obligations a solver answered unsat for",
+	}
+	if len(coverCount) > 0 {
+		cov["return_site_covers"] = map[string]interface{}{"counts": coverCount, "unreachable": deadReturns,
+			"note": "per return site of every function under contract: is it reachable under the preconditions, invariants and assumed contracts (z3, 2 s)? unreachable sites hold their postconditions vacuously; listed, not failed"}
 	}
 	if len(replayNotes) > 0 {
 		cov["known_finding_replays"] = replayNotes
